@@ -221,6 +221,14 @@ pub(crate) fn handle_submit(
     drop(state);
 
     senders.server_control.add_new_tasks(new_tasks).unwrap();
+    if new_job {
+        // A job without any task (e.g. an empty entry file) is completed right away
+        let mut state = state_ref.get_mut();
+        let job = state.get_job_mut(job_id).unwrap();
+        if job.n_tasks() == 0 {
+            job.check_termination(senders, Utc::now());
+        }
+    }
     ToClientMessage::SubmitResponse(SubmitResponse::Ok {
         job: job_detail,
         server_uid: state_ref.get().server_info().server_uid.clone(),
